@@ -9,7 +9,8 @@
        reader:   readBlobs: for each blob { select { case blobs <- b:             RSend
                                                      case <-ctx.Done(): return ctx.Err() } }   RCancelled
                  (EOF: return nil)                                                REof
-                 for i := 0; i < cores; i++ { c <- &blob{Type: blobTypeDone} }    RSendDone   (no select: Fixed = FALSE)
+                 for i := 0; i < cores; i++ { select { case c <- done-marker:      RSendDone
+                                                       case <-ctx.Done(): } }     RSkipDone (only when Fixed)
                  wg.Done()                                                        RExit
        worker:   for { select { case <-ctx.Done(): return                         WDone
                                 case b := <-c:                                    WRecv
@@ -18,9 +19,10 @@
                                     done: return } }
        main:     wg.Wait(); cancel(); close(c); return readOSMDataErr             Wait
 
-   Fixed = FALSE is the code as it stands: when the workers have left through ctx.Done, the reader still sends
+   Fixed = FALSE (cfg.fixed) is the code before commit dd16412 ("Before" variant): when the workers have left through ctx.Done, the reader still sends
    `cores` done-markers into a channel that nobody drains; if unread blobs remain in the buffer it blocks for ever.
-   Fixed = TRUE is the protocol after fixes/C28-pbf-done-markers-select.diff: each done-marker send selects on ctx.Done(). *)
+   Fixed = TRUE is the code as it stands, after fixes/C28-pbf-done-markers-select.diff: each done-marker send
+   selects on ctx.Done() (RSkipDone). *)
 EXTENDS Integers, Sequences, FiniteSets, TLC, Json, StreamsBase
 CONSTANTS MaxG, SizeVecs, MaxFail, Modes,
           Variants,   \* which protocols: subset of {TRUE, FALSE} (cfg.fixed)
